@@ -12,6 +12,7 @@ package api
 
 import (
 	"bytes"
+	"context"
 	"encoding/json"
 	"fmt"
 	"io"
@@ -19,6 +20,7 @@ import (
 	"os"
 	"os/exec"
 	"strings"
+	"sync"
 	"time"
 
 	"github.com/basekick-labs/arc/internal/config"
@@ -38,7 +40,7 @@ type c04ServerCfg struct {
 }
 
 type c04Cmd struct {
-	Op      string            // reset | ping | req | quiesce | close
+	Op      string            // reset | ping | req | req-async | await | gate-arm | gate-wait | gate-release | quiesce | close
 	Cfg     *c04ServerCfg     `json:",omitempty"` // reset: build a fresh server instance
 	Method  string            `json:",omitempty"`
 	Path    string            `json:",omitempty"`
@@ -80,8 +82,41 @@ func c04StatsOf(buf *ingest.ArrowBuffer) c04Stats {
 		Errors: geti("total_errors"), Depth: geti("flush_queue_depth"), Active: geti("active_buffers")}
 }
 
+// c04GateBackend passes everything through to the real backend; when armed, the
+// next Write blocks (after announcing that it was entered) until released. It
+// makes "a request arrives while another one sits in its storage write"
+// deterministic without any timing.
+type c04GateBackend struct {
+	storage.Backend
+	mu      sync.Mutex
+	armed   bool
+	entered chan struct{}
+	release chan struct{}
+}
+
+func (g *c04GateBackend) arm() {
+	g.mu.Lock()
+	g.armed, g.entered, g.release = true, make(chan struct{}), make(chan struct{})
+	g.mu.Unlock()
+}
+
+func (g *c04GateBackend) Write(ctx context.Context, path string, data []byte) error {
+	g.mu.Lock()
+	hold := g.armed
+	g.armed = false
+	entered, release := g.entered, g.release
+	g.mu.Unlock()
+	if hold {
+		close(entered)
+		<-release
+	}
+	return g.Backend.Write(ctx, path, data)
+}
+
 // c04Instance is one server instance: storage + ArrowBuffer + fiber app.
 type c04Instance struct {
+	gate    *c04GateBackend
+	pending chan c04Resp // response of the request started with req-async
 	buf *ingest.ArrowBuffer
 	app interface {
 		Test(req *http.Request, msTimeout ...int) (*http.Response, error)
@@ -89,10 +124,11 @@ type c04Instance struct {
 }
 
 func c04NewInstance(cfg c04ServerCfg) (*c04Instance, error) {
-	be, err := storage.NewLocalBackend(cfg.Root, zerolog.Nop())
+	lb, err := storage.NewLocalBackend(cfg.Root, zerolog.Nop())
 	if err != nil {
 		return nil, err
 	}
+	be := &c04GateBackend{Backend: lb}
 	buf := ingest.NewArrowBuffer(&config.IngestConfig{
 		MaxBufferSize:   cfg.MaxBufferSize,
 		MaxBufferAgeMS:  cfg.MaxBufferAgeMS,
@@ -115,7 +151,7 @@ func c04NewInstance(cfg c04ServerCfg) (*c04Instance, error) {
 	ih := NewImportHandler(logger)
 	ih.SetArrowBuffer(buf)
 	ih.RegisterRoutes(app)
-	return &c04Instance{buf: buf, app: app}, nil
+	return &c04Instance{buf: buf, app: app, gate: be}, nil
 }
 
 func c04ChildMain() {
@@ -163,23 +199,40 @@ func c04ChildMain() {
 		resp.Before = c04StatsOf(buf)
 		switch cmd.Op {
 		case "req":
-			req, rerr := http.NewRequest(cmd.Method, cmd.Path, bytes.NewReader(cmd.Body))
-			if rerr != nil {
-				resp.Err = "newrequest: " + rerr.Error()
+			c04Serve(inst, cmd, &resp)
+		case "req-async":
+			// start the request and return at once; "await" collects its response
+			inst.pending = make(chan c04Resp, 1)
+			go func(i *c04Instance, cmd c04Cmd) {
+				var r c04Resp
+				c04Serve(i, cmd, &r)
+				i.pending <- r
+			}(inst, cmd)
+			resp.Mode = "started"
+		case "await":
+			if inst.pending == nil {
+				resp.Err = "nothing pending"
 				break
 			}
-			for k, v := range cmd.Headers {
-				req.Header.Set(k, v)
+			r := <-inst.pending
+			inst.pending = nil
+			resp.Status, resp.Body, resp.Err = r.Status, r.Body, r.Err
+		case "gate-arm":
+			inst.gate.arm()
+			resp.Mode = "armed"
+		case "gate-wait":
+			// returns once a storage write is blocked inside the gate - or, if the
+			// pending request finished without ever writing, says so (no timing)
+			select {
+			case <-inst.gate.entered:
+				resp.Mode = "entered"
+			case r := <-inst.pending:
+				inst.pending <- r
+				resp.Mode = "not-entered"
 			}
-			req.ContentLength = int64(len(cmd.Body))
-			r, terr := inst.app.Test(req, -1)
-			if terr != nil {
-				resp.Err = "app.Test: " + terr.Error()
-				break
-			}
-			b, _ := io.ReadAll(io.LimitReader(r.Body, 4096))
-			r.Body.Close()
-			resp.Status, resp.Body = r.StatusCode, string(b)
+		case "gate-release":
+			close(inst.gate.release)
+			resp.Mode = "released"
 		case "quiesce":
 			// Wait until everything buffered has been written (the forced flush itself
 			// is an ordinary request to the admin flush endpoint sent by the parent).
@@ -202,6 +255,26 @@ func c04ChildMain() {
 			os.Exit(4)
 		}
 	}
+}
+
+func c04Serve(inst *c04Instance, cmd c04Cmd, resp *c04Resp) {
+	req, rerr := http.NewRequest(cmd.Method, cmd.Path, bytes.NewReader(cmd.Body))
+	if rerr != nil {
+		resp.Err = "newrequest: " + rerr.Error()
+		return
+	}
+	for k, v := range cmd.Headers {
+		req.Header.Set(k, v)
+	}
+	req.ContentLength = int64(len(cmd.Body))
+	r, terr := inst.app.Test(req, -1)
+	if terr != nil {
+		resp.Err = "app.Test: " + terr.Error()
+		return
+	}
+	b, _ := io.ReadAll(io.LimitReader(r.Body, 4096))
+	r.Body.Close()
+	resp.Status, resp.Body = r.StatusCode, string(b)
 }
 
 // c04Quiesce is a liveness aid (never an oracle): it returns once every buffered
